@@ -1,4 +1,5 @@
 import HapModel.Model.ObjMachine
+import HapModel.Model.HapObj
 /-!
 # C12 — By-ID operations always act on the object's current contents
 
@@ -56,5 +57,25 @@ example : FreshHist ⟨⟨["a","b"], none⟩, ⟨["v1","v2","v3"], none⟩, [[1,
     [.index true true, .subset none (some ["v3","v1"]) true, .dropRows [0],
      .read ["a","b"] ["v2","v3"] [[2,3],[5,6]], .append "z" [7, 8]] := by
   simp [FreshHist, ostep, subsetInplace, subsetCopy, positions, ensure, buildIdx, get?, removeIdx, appendCol]
+
+/-- **haplotypes objects**: after any sequence of reads, re-reads (all or by ID), in-place or copying subsets, sorts,
+    lazy or forced `index()` calls and merges, the cached `type_ids` is never stale, so the haplotypes that `to_str`
+    and `transform` work with are exactly the `H` records the object holds at that moment, in their current order -/
+theorem haplotypes_query_current (ops : List HapObj.Op) :
+    let o := (HapObj.run HapObj.fresh ops).1
+    HapObj.CacheOK o ∧ o.queryH = (o.data.filter (·.isH)).map (·.id) :=
+  HapObj.query_after_any_history ops
+
+/-- `Haplotypes.subset` keeps only records the object held, each stored under a requested ID (an absent ID is dropped,
+    never resolved to another record), and the copy it returns starts with a sound cache of its own -/
+theorem haplotypes_subset_sound (o : HapObj.Obj) (req : List String) (ip : Bool) :
+    (∀ r ∈ HapObj.pick o.data req, r ∈ o.data ∧ r.id ∈ req) ∧ HapObj.CacheOK (o.subset req ip).2 :=
+  ⟨fun r h => HapObj.pick_sound o.data req r h, HapObj.subset_copy_ok o req ip⟩
+
+/-- non-vacuity: read, copy-subset in another order with a repeated and an unknown ID, sort, query -/
+example : (HapObj.run HapObj.fresh
+    [.read [⟨"H1", true, 0⟩, ⟨"H2", true, 1⟩, ⟨"R1", false, 3⟩, ⟨"H3", true, 2⟩] none,
+     .subset ["R1", "H3", "R1", "zz", "H1"] true, .sort, .query]).2.map (·.ids) =
+    [["H1", "H2", "R1", "H3"], ["R1", "H3", "H1"], ["H1", "H3", "R1"], ["H1", "H3", "R1"]] := by decide
 
 end C12
